@@ -53,6 +53,23 @@ STRENGTHENED = {
             "with out-of-order attributes",
     "C20e": "rho tails for the submodule shapes",
     "C20f": "member-access chains through names that are no components, on cyclic types",
+    "C02h": "documents larger than one I/O block with a multi-byte character straddling the block boundary",
+    "C03g": "#if conditions whose evaluation overflows, exhausts memory or the stack",
+    "C09g": "continued declarations in the generated programs, in-line edits of continuation lines, focused "
+            "queries on the neighbourhood of every edit before and after it",
+    "C09h": "workspace/didChangeWatchedFiles for open documents whose file another tool touched (C02 and C09)",
+    "C10g": "as it stood after the round-3 template extensions (shadowing, names reaching a unit through a used "
+            "module) at the quick tier's case count",
+    "C10h": "TAB-indented rendering of the template workspaces",
+    "C15g": "INCLUDE fragments placed in another source directory than the including file",
+    "C16h": "editor-only characters (lone surrogates, NUL, separators) brought in by didChange and echoed by "
+            "hover/completion",
+    "C17g": "hostile and plain text in every Fortran expression position (constant initialisers with kinds, "
+            "bounds, lengths, DATA, conditions)",
+    "C19g": "relation R6: configuration file rewritten + didChangeConfiguration; the answers must be those of a "
+            "server on the old or on the new file, never a mixture",
+    "C20g": "the cycle shapes also without any IMPLICIT statement",
+    "C20h": "hosts with two dummy procedures declared with the host / with each other",
 }
 STRENGTHENED.update(json.load(open(os.path.join(VERIF, "seeded", "strengthened.json")))
                     if os.path.exists(os.path.join(VERIF, "seeded", "strengthened.json")) else {})
@@ -74,8 +91,11 @@ def main():
                 det.append(f"{c} ({clause}, {v['seconds']:.0f}s)")
         missed = [c for c, v in m["checks"].items() if v["exit"] == 0]
         nd = m["needs_to_manifest"].replace("|", "/")
+        last = STRENGTHENED.get(m["id"], "-")
+        if not det and m.get("note"):
+            last = m["note"].replace("|", "/").replace("\n", " ")
         rows.append(f"| {m['id']} | {nd} | {', '.join(det) or '**missed**'}"
-                    f"{(' — not by ' + ', '.join(missed)) if missed else ''} | {STRENGTHENED.get(m['id'], '-')} |")
+                    f"{(' — not by ' + ', '.join(missed)) if (missed and det) else ''} | {last} |")
     out = ["| change | needs, in order to manifest | caught by (clause, wall time of the quick check) | "
            "strengthening that was needed first |", "|---|---|---|---|"] + rows
     out.append("")
